@@ -6,7 +6,7 @@
     sum, lr->xyz, phase, scattering-matrix layout).
     Complex numbers are pairs over the carrier.  Transcendental leaves (exp(i.), J0, J2, cos, sin,
     sqrt, Gauss-Legendre nodes, the Mie amplitudes) are ARGUMENTS (oracles), never re-implemented. *)
-From Coq Require Import ZArith List Bool.
+From Coq Require Import ZArith QArith List Bool.
 From HV Require Import Common.Generic.
 Import ListNotations.
 
@@ -221,3 +221,14 @@ End Gen.
 Arguments cx T : clear implicits. Arguments vec3 T : clear implicits.
 Arguments qnode T : clear implicits. Arguments lterm T : clear implicits.
 Arguments smat T : clear implicits. Arguments lleaf T : clear implicits.
+
+(** A second rational instance used only to EXECUTE the model quickly: the harness writes every leaf with the
+    same power-of-two denominator, and sums of equal-depth products then keep a common denominator instead of
+    multiplying denominators (Qplus never cancels; Pos.mul in vm_compute is quadratic).  Same values as QO up to
+    Qeq (Lemmas.QF_add_Qeq, QF_sub_Qeq); every other field is QO's. *)
+Definition Qadd_fast (a b : Q) : Q :=
+  if Pos.eqb (Qden a) (Qden b) then Qmake (Qnum a + Qnum b) (Qden a) else Qplus a b.
+Definition Qsub_fast (a b : Q) : Q :=
+  if Pos.eqb (Qden a) (Qden b) then Qmake (Qnum a - Qnum b) (Qden a) else Qminus a b.
+Definition QF : Ops Q :=
+  mkOps Q 0%Q 1%Q Qadd_fast Qmult Qsub_fast Qopp Qinv Qltb Qle_bool Qeq_bool (fun z => inject_Z z).
